@@ -50,6 +50,7 @@ class Author(models.Model):
     org = models.ForeignKey(Org, null=True, on_delete=models.CASCADE, related_name="authors")
     info = models.ForeignKey(AuthorInfo, null=True, on_delete=models.CASCADE, related_name="+")
     home = models.ForeignKey(Org, null=False, default=1, on_delete=models.CASCADE, related_name="+")   # a NOT NULL key
+    boss = models.ForeignKey("self", null=True, on_delete=models.SET_NULL, related_name="+")           # self-referential
 
     class Meta:
         app_label = "djapp"
